@@ -150,6 +150,9 @@ def _p_norm(p: float, critical_pairs: list = []):
     result = 0.0
     for l in critical_pairs:
         for [[x0, y0], [x1, y1]] in zip(l, l[1:]):
+            # floating point throughout: integer critical values would be raised
+            # to the power p + 1 in integer arithmetic, which wraps around
+            x0, y0, x1, y1 = float(x0), float(y0), float(x1), float(y1)
             if y0 == y1:
                 # horizontal line segment
                 result += (np.abs(y0) ** p) * (x1 - x0)
